@@ -818,6 +818,78 @@ def scalarize_new_aggregates(trees: Dict[str, ast.Module], known_classes: Set[st
             return None
         return copy.deepcopy(v)
 
+    # functions declared to return a new record (`-> R`): they are read as returning the plain tuple of its fields, and
+    #   v = [await] f(..) ; v.<field> ...      as      v__f1, v__f2, .. = [await] f(..) ; v__<field> ...
+    rec_funcs: Dict[str, str] = {}
+    for t in trees.values():
+        for fn in [n for n in ast.walk(t) if isinstance(n, FuncDef)]:
+            if isinstance(fn.returns, ast.Name) and fn.returns.id in records and not methods.get(fn.returns.id):
+                rec_funcs[fn.name] = fn.returns.id
+    if rec_funcs:
+        for t in trees.values():
+            for fn in [n for n in ast.walk(t) if isinstance(n, FuncDef)]:
+                if fn.name in rec_funcs:
+                    cls = rec_funcs[fn.name]
+                    for rt in [x for x in _own_nodes(fn) if isinstance(x, ast.Return) and isinstance(x.value, ast.Call)
+                               and isinstance(x.value.func, ast.Name) and x.value.func.id == cls]:
+                        c = rt.value
+                        given = dict(zip(list(records[cls]), c.args))
+                        given.update({k.arg: k.value for k in c.keywords if k.arg})
+                        if set(given) == set(records[cls]) and not any(isinstance(a_, ast.Starred) for a_ in c.args):
+                            rt.value = ast.copy_location(ast.Tuple(elts=[given[f_] for f_ in records[cls]], ctx=ast.Load()), c)
+                    fn.returns = None
+                asg: Dict[str, List[ast.Assign]] = {}
+                for st in _own_nodes(fn):
+                    if isinstance(st, ast.Assign) and len(st.targets) == 1 and isinstance(st.targets[0], ast.Name):
+                        asg.setdefault(st.targets[0].id, []).append(st)
+                for var, sts in asg.items():
+                    if len(sts) != 1:
+                        continue
+                    v = sts[0].value.value if isinstance(sts[0].value, ast.Await) else sts[0].value
+                    callee = v.func.attr if isinstance(v, ast.Call) and isinstance(v.func, ast.Attribute) else \
+                        (v.func.id if isinstance(v, ast.Call) and isinstance(v.func, ast.Name) else None)
+                    if callee not in rec_funcs:
+                        continue
+                    cls = rec_funcs[callee]
+                    parents: Dict[int, ast.AST] = {}
+                    for n in ast.walk(fn):
+                        for c_ in ast.iter_child_nodes(n):
+                            parents[id(c_)] = n
+                    uses = [n for n in ast.walk(fn) if isinstance(n, ast.Name) and n.id == var and n is not sts[0].targets[0]]
+                    if not uses or not all(isinstance(parents.get(id(n)), ast.Attribute) and parents[id(n)].attr in records[cls] for n in uses):
+                        continue
+                    used = {parents[id(n)].attr for n in uses}
+                    sts[0].targets = [ast.Tuple(elts=[ast.Name(id=(f"{var}__{f_}" if f_ in used else "_"), ctx=ast.Store()) for f_ in records[cls]],
+                                                ctx=ast.Store())]
+
+                    class _RF(ast.NodeTransformer):
+                        def visit_Attribute(self, node: ast.Attribute):
+                            self.generic_visit(node)
+                            if isinstance(node.value, ast.Name) and node.value.id == var and node.attr in records[cls]:
+                                return ast.copy_location(ast.Name(id=f"{var}__{node.attr}", ctx=node.ctx), node)
+                            return node
+                    _RF().visit(fn)
+                    # `.., v__f, .. = call ; T = v__f` (the only use of v__f, the next statement) is `.., T, .. = call`
+                    for n in ast.walk(fn):
+                        for fld_ in ("body", "orelse", "finalbody"):
+                            L = getattr(n, fld_, None)
+                            if not (isinstance(L, list) and any(x is sts[0] for x in L)):
+                                continue
+                            k = next(i for i, x in enumerate(L) if x is sts[0])
+                            while k + 1 < len(L):
+                                nx_ = L[k + 1]
+                                if not (isinstance(nx_, ast.Assign) and len(nx_.targets) == 1 and isinstance(nx_.value, ast.Name)
+                                        and nx_.value.id.startswith(var + "__")):
+                                    break
+                                nm = nx_.value.id
+                                if sum(1 for x in ast.walk(fn) if isinstance(x, ast.Name) and x.id == nm) != 2:
+                                    break
+                                elts = sts[0].targets[0].elts
+                                i_ = next(i for i, e_ in enumerate(elts) if isinstance(e_, ast.Name) and e_.id == nm)
+                                elts[i_] = nx_.targets[0]
+                                del L[k + 1]
+                    ast.fix_missing_locations(fn)
+                    done.append(f"{fn.name}.{var}:{cls} (returned by {callee})")
     for t in trees.values():
         for fn in [n for n in ast.walk(t) if isinstance(n, FuncDef)]:
             _split_record_sites(fn, records)
